@@ -294,7 +294,7 @@ def check(rec):
             if ex is not None and ex.__traceback__ is not None:
                 import traceback
                 tb = traceback.extract_tb(ex.__traceback__)
-                where = ' (raised in %s)' % tb[-1].name
+                where = ' (raised in %s)' % (tb[-1].name if tb else '?')
             out.append(common.viol('C09.R1', '%s: run(on_error="return") raised %s%s' % (lab, e['exc'], where),
                                    dtid=e['dtid'], k=e['k'], exc=e['exc']))
             continue
